@@ -105,7 +105,6 @@ struct Fix {
     base: PathBuf,
     repo_path: PathBuf,
     rid: RepoId,
-    n_del: usize,
     actors: Vec<Device<MockSigner>>,
     keys: Vec<PublicKey>,
     docs: Vec<DocInfo>,
@@ -226,7 +225,7 @@ fn build_fixture(n_del: usize, menu: Vec<u8>, max_revs: usize, stride: u64) -> F
     }
     let mut pool = vec![keys[0]];
     pool.extend((0..12u8).map(|i| *dev(200 + i).public_key()));
-    Fix { base, repo_path, rid, n_del, actors, keys, docs, menu, max_revs, root, initial, sigs, valid, pool, stride }
+    Fix { base, repo_path, rid, actors, keys, docs, menu, max_revs, root, initial, sigs, valid, pool, stride }
 }
 
 #[derive(Clone)]
@@ -234,6 +233,8 @@ struct RevInfo {
     id: Oid,
     doc: u8,
     parent: Option<u8>,
+    /// Model: was the link parent → this revision backed by a majority when it became current?
+    link_ok: Option<bool>,
 }
 
 #[derive(Clone)]
@@ -254,7 +255,7 @@ impl Sys {
         let f = fix();
         let mut signed = BTreeSet::new();
         signed.insert((0, 0)); // the founder signed the initial document
-        Sys { id: f.initial.clone(), revs: vec![RevInfo { id: f.root, doc: 0, parent: None }], signed, hist: vec![], applied: vec![] }
+        Sys { id: f.initial.clone(), revs: vec![RevInfo { id: f.root, doc: 0, parent: None, link_ok: None }], signed, hist: vec![], applied: vec![] }
     }
 
     fn rev_ix(&self, id: &Oid) -> Option<u8> {
@@ -368,49 +369,72 @@ impl Sys {
         json!({"current": self.cur_ix(), "heads": heads, "revisions": revs})
     }
 
-    /// I1 over every link of the chain current → root.
-    fn check_i1(&self, vs: &mut Vec<Violation>) {
+    /// I1 for the link parent(y) → y: the delegates of the replaced document that have a valid
+    /// signature over y's blob in `Revision::signatures()`; `None` if y is redacted.
+    fn link_signers(&self, y: u8) -> Option<(u8, Vec<u8>)> {
         let f = fix();
+        let x = self.revs[y as usize].parent?;
+        let dels = &f.docs[self.revs[x as usize].doc as usize].delegates;
+        let ydoc = self.revs[y as usize].doc;
+        let yrev = self.id.revision(&self.revs[y as usize].id)?;
+        let in_state = dels.iter().copied().filter(|d| yrev.signatures().any(|(k, s)| *k == f.keys[*d as usize] && self.sig_valid(*d, ydoc, &s))).collect();
+        Some((x, in_state))
+    }
+
+    /// I1. At the step that makes `y` current the new link is judged (and the witness classified);
+    /// on every later state the links that were sound when created are re-judged.
+    fn check_i1(&mut self, adopted: Option<u8>, vs: &mut Vec<Violation>) {
+        let f = fix();
+        let names = |v: &[u8]| v.iter().map(|i| ACTOR_NAMES[*i as usize]).collect::<Vec<_>>().join(",");
         let mut y = self.cur_ix();
-        while let Some(x) = self.revs[y as usize].parent {
+        while self.revs[y as usize].parent.is_some() {
+            let Some((x, in_state)) = self.link_signers(y) else { break }; // I4 reports a redacted current revision
             let dels = &f.docs[self.revs[x as usize].doc as usize].delegates;
             let ydoc = self.revs[y as usize].doc;
-            let Some(yrev) = self.id.revision(&self.revs[y as usize].id) else {
-                break; // I4 reports a redacted current revision
-            };
-            let in_state: Vec<u8> = dels
-                .iter()
-                .copied()
-                .filter(|d| yrev.signatures().any(|(k, s)| *k == f.keys[*d as usize] && self.sig_valid(*d, ydoc, &s)))
-                .collect();
-            if in_state.len() * 2 <= dels.len() {
-                let ever: Vec<u8> = dels.iter().copied().filter(|d| self.signed.contains(&(ydoc, *d))).collect();
-                let voters: Vec<u8> = dels.iter().copied().filter(|d| self.id.heads.get(&Did::from(f.keys[*d as usize])) == Some(&self.revs[y as usize].id)).collect();
-                // Why does the implementation's vote count exceed the valid signatures? Classify
-                // each voter that has no valid signature in the state by what it did in this history.
-                let mut reasons: BTreeSet<&'static str> = BTreeSet::new();
-                for v in voters.iter().filter(|v| !in_state.contains(v)) {
-                    let bad_accept = self.hist.iter().any(|e| matches!(e, Ev::Accept { by, rev, sig } if by == v && *rev == y && *sig != Sig::Valid));
-                    let rejected_after = ever.contains(v) && self.hist.iter().any(|e| matches!(e, Ev::Reject { by, rev } if by == v && *rev == y));
-                    reasons.insert(if rejected_after {
-                        "voter-verdict-overwritten-by-failed-duplicate"
-                    } else if bad_accept {
-                        "voter-accept-with-invalid-signature-was-pruned-but-counted"
+            let sound = in_state.len() * 2 > dels.len();
+            if adopted == Some(y) {
+                self.revs[y as usize].link_ok = Some(sound);
+                if !sound {
+                    let yrev = self.id.revision(&self.revs[y as usize].id).expect("checked by link_signers");
+                    let ever: Vec<u8> = dels.iter().copied().filter(|d| self.signed.contains(&(ydoc, *d))).collect();
+                    let voters: Vec<u8> = dels.iter().copied().filter(|d| self.id.heads.get(&Did::from(f.keys[*d as usize])) == Some(&self.revs[y as usize].id)).collect();
+                    // Why does the implementation's vote count exceed the valid signatures? Classify each
+                    // voter that has no valid signature in the state by what this history made it do.
+                    let mut reasons: BTreeSet<&'static str> = BTreeSet::new();
+                    for v in voters.iter().filter(|v| !in_state.contains(v)) {
+                        let verdict_is_reject = yrev.verdicts().any(|(k, vd)| *k == f.keys[*v as usize] && matches!(vd, Verdict::Reject));
+                        let bad_accept = self.hist.iter().any(|e| matches!(e, Ev::Accept { by, rev, sig } if by == v && *rev == y && *sig != Sig::Valid));
+                        reasons.insert(if bad_accept {
+                            "vote-of-pruned-accept-with-invalid-signature-counted"
+                        } else if verdict_is_reject && ever.contains(v) {
+                            "valid-signature-overwritten-by-failed-duplicate-verdict"
+                        } else {
+                            "voter-without-signature"
+                        });
+                    }
+                    let primary = ["vote-of-pruned-accept-with-invalid-signature-counted", "valid-signature-overwritten-by-failed-duplicate-verdict", "voter-without-signature"]
+                        .into_iter()
+                        .find(|r| reasons.contains(r))
+                        .unwrap_or(if voters.len() * 2 <= dels.len() { "adopted-with-votes-below-majority" } else { "unclassified" });
+                    let reading = if ever.len() * 2 <= dels.len() {
+                        "under every reading: fewer than a majority ever submitted a valid signature over this blob"
                     } else {
-                        "voter-without-signature"
-                    });
+                        "a majority did submit valid signatures in this history, but Revision::signatures() no longer shows them"
+                    };
+                    vs.push(Violation::new(
+                        format!("C04/I1-majority-of-valid-signatures/{primary}"),
+                        format!(
+                            "revision rev{y} ({}) replaced rev{x} and became current, but only {} of the {} delegates of the replaced document have a valid signature over its blob in Revision::signatures() [{}] (a strict majority needs {}); counted as votes by `heads`: [{}]; ever submitted a valid signature over that blob: [{}] — {reading}",
+                            f.docs[ydoc as usize].what, in_state.len(), dels.len(), names(&in_state), dels.len() / 2 + 1, names(&voters), names(&ever)
+                        ),
+                        json!({"state": self.describe(), "reasons": reasons, "majority_ever_signed": ever.len() * 2 > dels.len()}),
+                    ));
                 }
-                if voters.len() * 2 <= dels.len() {
-                    reasons.insert("votes-below-majority");
-                }
-                let reading = if ever.len() * 2 <= dels.len() { "never-signed-by-majority" } else { "signatures-missing-from-state" };
-                let names = |v: &[u8]| v.iter().map(|i| ACTOR_NAMES[*i as usize]).collect::<Vec<_>>().join(",");
+            } else if self.revs[y as usize].link_ok == Some(true) && !sound {
+                self.revs[y as usize].link_ok = Some(false);
                 vs.push(Violation::new(
-                    format!("C04/I1-majority-of-valid-signatures/{reading}/{}", reasons.into_iter().collect::<Vec<_>>().join("+")),
-                    format!(
-                        "revision rev{y} ({}) replaced rev{x} and is current/accepted, but only {} of the {} delegates of the replaced document have a valid signature over its blob in Revision::signatures() [{}] (majority needs {}); counted as votes by heads: [{}]; ever submitted a valid signature over that blob: [{}]",
-                        f.docs[ydoc as usize].what, in_state.len(), dels.len(), names(&in_state), dels.len() / 2 + 1, names(&voters), names(&ever)
-                    ),
+                    "C04/I1-majority-of-valid-signatures/accepted-revision-lost-signatures-later".to_string(),
+                    format!("accepted revision rev{y} had a majority of valid signatures when it became current but now shows only [{}] of {} delegates", names(&in_state), dels.len()),
                     json!({"state": self.describe()}),
                 ));
             }
@@ -539,7 +563,7 @@ impl System for Sys {
                     Par::Cur => pre_cur,
                     Par::Prev => self.revs[pre_cur as usize].parent.expect("prev"),
                 };
-                self.revs.push(RevInfo { id: op_id, doc: *doc, parent: Some(p) });
+                self.revs.push(RevInfo { id: op_id, doc: *doc, parent: Some(p), link_ok: None });
                 made = Some(self.revs.len() as u8 - 1);
             }
         }
@@ -582,7 +606,7 @@ impl System for Sys {
             ));
         }
         // I1
-        self.check_i1(&mut vs);
+        self.check_i1(if post_cur != pre_cur { Some(post_cur) } else { None }, &mut vs);
 
         let res = match &result {
             Ok(()) => "ok".to_string(),
@@ -605,6 +629,7 @@ impl System for Sys {
         for r in &self.revs {
             out.push(r.doc);
             out.push(r.parent.map(|p| p + 1).unwrap_or(0));
+            out.push(match r.link_ok { None => 0, Some(true) => 1, Some(false) => 2 });
         }
         out.push(0xfa);
         for (d, a) in &self.signed {
